@@ -51,7 +51,7 @@ func genPrincipals(r *c.Rng, max int) []string {
 
 func genSign(r *c.Rng) *Case {
 	k := &Case{Op: "sign"}
-	k.CA = c.Pick(r, []string{"both", "both", "both", "both", "both", "bothnodb", "bothnodb", "bothnodb", "bothnodb", "none", "user", "user", "host", "host"})
+	k.CA = c.Pick(r, []string{"both", "both", "both", "both", "both", "bothnodb", "bothnodb", "bothnodb", "bothnodb", "none", "user", "user", "host", "host", "fed"})
 	k.Prov = c.Pick(r, []string{"jwk", "jwk", "jwk", "x5c", "x5c", "oidc"})
 	k.Sub = c.Pick(r, subPool)
 	if r.Chance(1, 60) {
@@ -144,13 +144,13 @@ func genSign(r *c.Rng) *Case {
 
 func genPop(r *c.Rng) *Case {
 	k := &Case{Op: c.Pick(r, []string{"renew", "renew", "rekey", "rekey", "revoke"})}
-	k.CA = c.Pick(r, []string{"both", "both", "both", "both", "host", "user"})
+	k.CA = c.Pick(r, []string{"both", "both", "both", "fed", "fed", "fed", "host", "user"})
 	k.Cert = Opts{CertType: "host", KeyID: c.Pick(r, []string{"host.example.com", "h1", ""}), Principals: genPrincipals(r, 3)}
 	k.SignBy, k.Window, k.TokKey, k.Aud, k.Iss, k.Key = "host", "ok", "cert", "ok", "ok", "ed"
 	k.SubSer = k.Op == "revoke"
 	// usually exactly one deviation from the valid request
 	for i := c.Pick(r, []int{0, 0, 0, 1, 1, 1, 1, 2, 3}); i > 0; i-- {
-		switch r.Intn(13) {
+		switch r.Intn(17) {
 		case 0:
 			k.Cert.CertType = "user"
 		case 1:
@@ -175,6 +175,12 @@ func genPop(r *c.Rng) *Case {
 			k.DisRen = true
 		case 11:
 			k.Cert.CertType = "3"
+		case 13:
+			k.SignBy = "fedhost"
+		case 14:
+			k.Cert.CertType, k.SignBy = "user", "feduser"
+		case 15:
+			k.SignBy = "oldhost"
 		default:
 			k.Key = c.Pick(r, []string{"rsa1024", "dsa", "ec", "rsa2048"})
 			k.SubSer = !k.SubSer
@@ -251,5 +257,17 @@ func corner() []*Case {
 		pop("rekey", func(k *Case) { k.Key = "rsa1024" }),
 		pop("renew", func(k *Case) { k.CA = "user" }),
 		pop("renew", func(k *Case) { k.Aud = "wrong" }),
+		// federation: keys of other SSH CAs configured under ssh.keys with federated=true
+		pop("renew", func(k *Case) { k.CA = "fed" }),
+		pop("rekey", func(k *Case) { k.CA = "fed" }),
+		pop("renew", func(k *Case) { k.CA, k.SignBy = "fed", "fedhost" }),
+		pop("rekey", func(k *Case) { k.CA, k.SignBy = "fed", "fedhost" }),
+		pop("revoke", func(k *Case) { k.CA, k.SignBy = "fed", "fedhost" }),
+		pop("revoke", func(k *Case) { k.CA, k.SignBy, k.Cert.CertType = "fed", "feduser", "user" }),
+		pop("renew", func(k *Case) { k.CA, k.SignBy = "fed", "foreign" }),
+		pop("renew", func(k *Case) { k.CA, k.SignBy = "fed", "oldhost" }),
+		pop("rekey", func(k *Case) { k.CA, k.SignBy = "fed", "oldhost" }),
+		pop("revoke", func(k *Case) { k.CA, k.SignBy = "fed", "oldhost" }),
+		pop("renew", func(k *Case) { k.CA, k.SignBy = "both", "fedhost" }),
 	}
 }
